@@ -16,6 +16,7 @@ EXPLANATION = (
     "may remove archive files, and backup/restore/validate/list/diff cannot reach a removal (call graph); "
     "(6) every storage/decoding error while computing the referenced set is propagated (an unreadable index must "
     "abort the gc, never count as 'references nothing'); (7) the lock is released on the success path and by Drop."
+    " Added in later rounds: the reference scan reads the hunks PRESENT in each kept band and every address of every entry (C05.4c), all unreferenced blocks are deleted (C05.4d), every non-empty block file is visible to the collector (C05.5i), nothing is removed after the lock was released (C05.7c)."
 )
 UNDECIDED = [
     "end-state equalities: 'exactly those versions are gone', 'no unreferenced block remains'",
